@@ -1096,6 +1096,7 @@ void w_run(long budget, long stall_n)
                         }
                 }
                 if (s == CAT_STATUS_OK) {
+                        long idle_before = idle;
                         idle = 0;
                         okrun++;
                         if (flags & WF_PROBE) {
@@ -1115,6 +1116,23 @@ void w_run(long budget, long stall_n)
                                         continue;
                                 }
                                 okrun++;
+                        }
+                        /* a parser parked in HOLD can make no progress without a release: whatever cat_service returns meanwhile
+                         * (the statements allow BUSY as well as OK there), it is a stall for the harness, never "quiescent
+                         * between lines" */
+                        if ((!mtx_on || (flags & WF_SAMPLE_LOCKED)) && cat_is_hold(at) == CAT_STATUS_HOLD) {
+                                okrun = 0;
+                                idle = idle_before;
+                                if (++idle >= stall_n) {
+                                        idle = 0;
+                                        stalls++;
+                                        if (!fire_actions(2, stalls) && !step_actions_left()) {
+                                                why = "stalled";
+                                                stepno++;
+                                                break;
+                                        }
+                                }
+                                continue;
                         }
                         /* quiescent between lines: perform the actions bound to this line barrier */
                         if (okrun >= 2 && fire_actions(1, lf_count)) {
